@@ -82,6 +82,13 @@ def run(tier_name=None, replay=None):
             samples.append({"scenario": s["id"], "crash": crash, "continuation": policy, "twin_outcome": [n[1] for n in twin.notes],
                             "outcome": [n[1] for n in r.notes]})
 
+    deterministic = set()
+    for s in scenario_set(thorough):
+        # the crash-free outcome of these machines does not depend on the schedule (checked here on a sample of schedules)
+        outs = set()
+        explore_dfs(s, budget=12, d1=False, on_run=lambda r: outs.add(json.dumps([r.outcomes, [n[:2] for n in r.notes if n[1] != "RUNNING"]], sort_keys=True, default=str)))
+        if len(outs) == 1 and s["id"] not in ("two-execs",):
+            deterministic.add(s["id"])
     for s in scenario_set(thorough):
         by_scn[s["id"]] = s
         overs = [{}]
@@ -110,9 +117,21 @@ def run(tier_name=None, replay=None):
                 if cur is not None:
                     ops_per_frame.append(cur)
                 for kf in range(0, nframes + 1):
+                    seen = set()
                     for policy in (("first", "last") if thorough or kf % 2 == 0 else ("first",)):
                         r = run_once(s, schedule=sched, policy=policy, crash={"frame": kf}, **over)
+                        seen.add(tuple(r.schedule))
                         add(s, r, twin, {"frame": kf}, policy, True, sched, over)
+                    if sched == [] and s["id"] in deterministic:
+                        # every order of what is pending around the restart (worker take / reply / redelivered event / timers):
+                        # depth-first over the schedules of the crashed run, deviations nearest the end (after the restart) first
+                        def on_run(r, kf=kf, seen=seen):
+                            if tuple(r.schedule) in seen:
+                                return
+                            seen.add(tuple(r.schedule))
+                            add(s, r, twin, {"frame": kf}, "first", True, list(r.schedule), over)
+                            counters["continuations"] += 1
+                        explore_dfs(s, budget=(60 if thorough else 8), on_run=on_run, crash={"frame": kf}, **over)
                 for kf, nops in enumerate(ops_per_frame[:nframes]):
                     for j in range(nops):
                         if not thorough and (kf + j) % 2:
@@ -145,7 +164,7 @@ def run(tier_name=None, replay=None):
                   "rule": "one evaluation = one run of the real engine with one crash point (a boundary between two handler invocations, or after the j-th broker "
                           "operation inside a handler), restart with redelivery, continuation to D1, validated by TLC against Trace.tla together with the outcome of its "
                           "crash-free twin; distinct = distinct (scenario, schedule, crash point, continuation order); non-trivial = the crash actually happened",
-                  "samples": samples, "boundary_crashes": counters["boundary"], "in_handler_crashes": counters["inside"],
+                  "samples": samples, "boundary_crashes": counters["boundary"], "continuation_orders_beyond_first_last": counters["continuations"], "in_handler_crashes": counters["inside"],
                   "states": stats["states"], "transitions": stats["transitions"], "traces_validated_against_impl": counters["runs"],
                   "failed_clauses": {"%s|%s|%s" % kk: n for kk, n in nfail.items()}, "exhaustive": True,
                   "scenarios": sorted(by_scn), "tlc_cpu_s": stats["tlc_cpu_s"]}
